@@ -216,6 +216,27 @@ Definition spec_add_to_object (F : forest) (object string item : ptr) (constant_
   | _, _, _ => (F, false)
   end.
 
+(** cJSON_DetachItemFromObject[CaseSensitive] / cJSON_DeleteItemFromObject[CaseSensitive] *)
+Definition spec_detach_key (strs : gmap positive bytes) (F : forest) (object name : ptr) (case_sensitive : bool)
+    : forest * ptr :=
+  spec_detach F object (spec_get_key strs F object name case_sensitive).
+Definition spec_delete_key (strs : gmap positive bytes) (F : forest) (object name : ptr) (case_sensitive : bool)
+    : forest :=
+  let '(F', it) := spec_detach_key strs F object name case_sensitive in spec_delete F' it.
+
+(** * value setters (data of one node; links, children and ownership untouched) *)
+Definition rd_set_number (d : rdata) (n : dbl) : rdata :=
+  mkRD (rd_type d) (rd_vstr d) (sat_int n) n (rd_key d) (rd_ref d).
+Definition rd_set_int (d : rdata) (i : Z) : rdata :=
+  mkRD (rd_type d) (rd_vstr d) i (dbl_of_int i) (rd_key d) (rd_ref d).
+Definition rd_set_bool (d : rdata) (b : bool) : rdata :=
+  mkRD (Z.lor (Z.land (rd_type d) (Z.lnot (Z.lor c_cJSON_False c_cJSON_True)))
+              (if b then c_cJSON_True else c_cJSON_False))
+       (rd_vstr d) (rd_vint d) (rd_vdbl d) (rd_key d) (rd_ref d).
+(** apply a data transformer to node [x] *)
+Definition spec_update (F : forest) (x : positive) (f : rdata -> rdata) : forest :=
+  match find_tree x F with Some n => set_data x (f (tdata n)) F | None => F end.
+
 (** * the documented ownership rules, as predicates on the abstract state *)
 
 (** [x] is a detached item / document root *)
